@@ -41,6 +41,12 @@ func (p *FloatingIPPlugin) ensureIPAMConf(lastConf *string, newConf string) (boo
 	if err := json.Unmarshal([]byte(newConf), &conf); err != nil {
 		return false, fmt.Errorf("failed to unmarshal configmap val %s to floatingip config: %v", newConf, err)
 	}
+	for i := range conf {
+		if conf[i] == nil {
+			// e.g. [null]
+			return false, fmt.Errorf("invalid floatingip config %s: pool %d is null", newConf, i)
+		}
+	}
 	if err := p.ipam.ConfigurePool(conf); err != nil {
 		return false, fmt.Errorf("failed to configure pool: %v", err)
 	}
